@@ -17,6 +17,8 @@ spec = {
   "golden":  {name: {"ok": bool, "text": str | None, "exc": str | None}} | None  (None: record full outputs),
   "golden_file": path of a json file with the golden table (alternative to "golden"),
   "count_prefix": false -> the prefix nodes are executed but not counted/compared (they belong to another task),
+  "leaf_order": [letters] | None -> at the last level only these letters and the letters occurring in the history
+             are compiled (victims),
   "count_min_len": n -> histories shorter than n are executed but not counted/compared (covered by another stratum),
   "prealloc": number of objects allocated (and kept alive) before importing cohdl / the design,
   "record":  bool  -> also return the complete outcome of every prefix compilation (golden/variant runs)
@@ -239,7 +241,12 @@ def explore(spec, history, depth_left, stats):
     """Explore all extensions of `history` (this process holds the state after `history`)."""
     if depth_left <= 0:
         return
-    for letter in spec["order"]:
+    cands = spec["order"]
+    if depth_left == 1 and spec.get("leaf_order") is not None:
+        # last level restricted to the listed victims plus every letter that already occurs in the history
+        keep = set(spec["leaf_order"]) | set(history)
+        cands = [l for l in cands if l in keep]
+    for letter in cands:
         r, w = os.pipe()
         pid = os.fork()
         if pid == 0:
